@@ -6,6 +6,8 @@ import Ledger.Props.C24
     checks and was built at run time sums to exactly one. -/
 namespace Ledger.Machine
 
+variable {cfg : Cfg}
+
 /-- Known (literal) part of a portion. -/
 def litVal : PortionE → Rat
   | .lit t =>
